@@ -70,4 +70,33 @@ theorem tamper_safe_api (C : Crypto) (kek0 wcek0 cek0 iv0 ct0 pt : Bytes)
           subst ho
           exact tamper_safe C kek0 wcek0 cek0 iv0 ct0 pt hon hpt b env.payload q hd
 
+/-- (fix D15) The idealisation above is about parties who cannot compute the KEK.  In DH public-key mode the KEK
+    depends on a value read from the blob; a degenerate value (0, 1, p − 1 …) makes the shared secret — hence the KEK —
+    predictable without any key, and a foreign modulus makes it whatever the forger likes.  The repaired `compute_kek`
+    rejects both, whatever the private key: a value outside 2 … p − 2 … -/
+theorem degenerate_dh_rejected (C : Crypto) (alg : Hash) (sp priv pub : Bytes) (k : FfcKey)
+    (hu : ffcKeyUnpack pub = .ok k) (hbad : k.publicKey ≤ 1 ∨ k.fieldOrder - 1 ≤ k.publicKey) :
+    ∃ e, computeKek C alg dhName sp priv pub = .error e := by
+  unfold computeKek
+  have hn : ¬ (1 < k.publicKey ∧ k.publicKey < k.fieldOrder - 1) := by omega
+  simp only [if_true, hu, bind, Except.bind]
+  by_cases hsp : sp = []
+  · simp [hsp, hn, throw, throwThe, MonadExceptOf.throw]
+  · simp only [ne_eq, hsp, not_false_eq_true, if_true]
+    cases hq : ffcParamsUnpack sp with
+    | error e => exact ⟨e, rfl⟩
+    | ok q =>
+      simp only []
+      by_cases hor : k.fieldOrder ≠ q.fieldOrder ∨ k.generator ≠ q.generator
+      · simp [hor, throw, throwThe, MonadExceptOf.throw]
+      · simp [hor, hn, throw, throwThe, MonadExceptOf.throw]
+
+/-- … and a value whose modulus or generator is not the root key's. -/
+theorem foreign_group_rejected (C : Crypto) (alg : Hash) (sp priv pub : Bytes) (k : FfcKey) (q : FfcParams)
+    (hu : ffcKeyUnpack pub = .ok k) (hsp : sp ≠ []) (hq : ffcParamsUnpack sp = .ok q)
+    (hbad : k.fieldOrder ≠ q.fieldOrder ∨ k.generator ≠ q.generator) :
+    computeKek C alg dhName sp priv pub = .error .valueError := by
+  unfold computeKek
+  simp [hu, bind, Except.bind, hsp, hq, hbad, throw, throwThe, MonadExceptOf.throw]
+
 end DpapiNg.C04
